@@ -10,4 +10,5 @@ let table = [
   "gate", Gate.accept;
   "poll", Poll.accept;
   "chain", Chain.accept;
+  "qgauge", QGauge.accept;
 ]
